@@ -151,7 +151,20 @@ def check(ctx):
         core.run_harness(h, ["alloc"] + args + ["-out", t], wd)
         runner.run_job(ctx, _job(ctx, name, t, _replay_seq, rerun=_rerun([str(a) for a in args])))
         paths.append(t)
+    # model -> code: call sequences simulated by TLC from AllocGen.tla, replayed on both allocators
+    scns = core.simulate_scenarios(ctx.scratch, "AllocGen", "AllocGen_out.cfg" if dom == "outstanding" else "AllocGen_any.cfg",
+                                   100 if ctx.quick else 3000, 40, ctx.seed)
+    if len(scns) < 5:
+        raise Infra("TLC simulation produced only %d behaviours" % len(scns))
+    jf = os.path.join(wd, "behaviours.json")
+    json.dump(scns, open(jf, "w"))
+    t = os.path.join(wd, "letters.ndjson")
+    largs = ["-mode", "letters", "-in", jf, "-domain", dom, "-seed", ctx.seed]
+    core.run_harness(h, ["alloc"] + largs + ["-out", t], wd)
+    runner.run_job(ctx, _job(ctx, "letters", t, _replay_seq, rerun=_rerun([str(a) for a in largs])))
+    paths.append(t)
     st = _stats(paths)
+    st["tlc_generated_behaviours_replayed"] = len(scns)
     conc = {}
     if prop == "C04":
         # schedules: exclusion probes (counterexample of AllocConc with UseLock = FALSE) and stress
